@@ -1,5 +1,5 @@
 CONSTANTS Alphabet = {97, 98} MaxLen = 5 MaxDatas = {1, 2, 3} WeakM = 65536
-          SwallowSendBlockError = FALSE Faults = TRUE
+          SwallowSendBlockError = FALSE Faults = TRUE OpReset = "whole"
 SPECIFICATION Spec
 INVARIANTS InvC19 InvC20 InvRollExact InvProgress InvBuffer InvSigShape InvErrOnlyOnFailure
 CHECK_DEADLOCK FALSE
